@@ -46,6 +46,7 @@ pub fn verif_dir() -> String {
 
 impl Report {
     pub fn new(property: &str, tier: Tier, seed: u64) -> Report {
+        crate::engine::set_current_property(property);
         Report {
             property: property.to_string(),
             tier,
